@@ -20,7 +20,7 @@ use std::fmt::Write as _;
 #[path = "c03arity.rs"]
 pub mod arity;
 
-fn builtins_s(genv: &GlobalTypeEnv) -> S {
+pub fn builtins_s(genv: &GlobalTypeEnv) -> S {
     let mut rows = Vec::new();
     for (name, sch) in genv.value_env.funcs.iter() {
         if matches!(sch.origin, FnOrigin::Builtin) {
@@ -35,7 +35,7 @@ fn builtins_s(genv: &GlobalTypeEnv) -> S {
     tagged("builtins", rows)
 }
 
-fn traits_s(genv: &GlobalTypeEnv) -> S {
+pub fn traits_s(genv: &GlobalTypeEnv) -> S {
     let mut rows = Vec::new();
     for (name, def) in genv.trait_env.trait_defs.iter() {
         let mut v = vec![a(name)];
